@@ -366,7 +366,7 @@ def c08(tier, seed, only):
     # layer 1: trigger sufficiency (only the propagators with a narrow mask have anything to show)
     jobs = []
     for cfg in _lemma_cfgs(tier):
-        if cfg["alg"] not in NARROW_MASK or cfg["n"] > (3 if tier == "quick" else 4):
+        if cfg["n"] > (3 if tier == "quick" else 4) or cfg["alg"] == "dummy":
             continue
         if only and cfg["alg"] not in only:
             continue
@@ -388,7 +388,9 @@ def c08(tier, seed, only):
             continue
         jobs.append(dict(key="lemma_bcstep", params=dict(model=name), label=f"bcstep/{name}"))
     for job, r in list(zip(jobs, chk.explore_many(jobs)))[:n_trig]:
-        chk.require(job["alg"], r.acc.counts.get("stable-on-B", 0) > 0, "no stable box explored")
+        chk.require(job["alg"], r.acc.counts.get("stable-on-B", 0) > 0 or r.acc.counts.get("full-mask", 0) > 0, "no stable box explored")
+        if job["alg"] in NARROW_MASK:
+            chk.require(job["alg"], r.acc.counts.get("full-mask", 0) == 0, "expected a narrow wake-up mask")
     # layer 3: every consistency pass of whole runs (root, after each branch, after each backtrack)
     runs = solvefam.plan(tier, seed, models=only, extra_default=True)
     if tier == "quick":
@@ -466,6 +468,12 @@ def c13(tier, seed, only):
         if cfg["alg"] == "gcc":
             continue  # the box contract of gcc pins the values to [v0, v0+m): translation is covered by the symbolic-v0 run of the thorough tier
         jobs.append(dict(key="lemma_transl", params=dict(cfg=cfg), label=f"transl/{cfg['alg']}/n={cfg['n']}/{cfg['params']}"))
+    # the model-building API: add_variable / add_variables write down the model they are given
+    from nusym import h_build
+
+    if not only or "build" in only:
+        for scn in h_build.SCENARIOS:
+            jobs.append(dict(key="lemma_build", params=dict(scenario=scn, known=[k for k in chk.known if k.get("harness") == "build"]), label=f"build/{scn}"))
     for job, r in list(zip(jobs, chk.explore_many(jobs)))[:n_init]:
         chk.require(job["name"], r.acc.counts.get("init-ok", 0) > 0 or any(k.startswith("violation") for k in r.acc.counts), "init never completed")
     # twin micro-models: both formulations are compared with the same semantic set (C02's exactly-once + complete query)
@@ -500,7 +508,7 @@ def c10(tier, seed, only):
     from nusym import h_shave, h_solve  # noqa
 
     chk = Check("C10", tier, seed)
-    models = ["lt", "sum_eq", "geq_leq", "alldiff3", "alldiff_lt", "max_eq", "max_leq_min_geq", "queens_like", "shared_twice", "magic_like", "count", "element_liv", "lex", "relation", "and_true", "gcc", "circuit3", "noncoprime_eq", "lin3"]
+    models = ["lt", "sum_eq", "geq_leq", "alldiff3", "alldiff_lt", "max_eq", "max_leq_min_geq", "queens_like", "shared_twice", "magic_like", "count", "element_liv", "lex", "relation", "and_true", "gcc", "circuit3", "noncoprime_eq", "lin3", "eq_diff_free"]
     if tier == "quick":
         models = [m for m in models if m not in ("count", "gcc")]
     jobs = []
@@ -516,7 +524,7 @@ def c10(tier, seed, only):
     r = rs[-1]
     chk.require("shave_bound", r.acc.counts.get("shaved:True", 0) > 0 and r.acc.counts.get("shaved:False", 0) > 0, "both verdicts must be reached")
     # C: a solver using shaving enumerates exactly the semantic set and finds the optimum (hence the same as with BC: C02/C03)
-    runs = [(n, dict(cons="shaving", varh=v, domh=d)) for n, v, d in [("lt", "first", "min"), ("alldiff3", "smallest", "max"), ("queens_like", "first", "mid"), ("max_eq", "greatest", "split"), ("shared_twice", "first", "min"), ("circuit3", "first", "max"), ("count", "first", "mid"), ("geq_leq", "smallest", "split")]]
+    runs = [(n, dict(cons="shaving", varh=v, domh=d)) for n, v, d in [("lt", "first", "min"), ("alldiff3", "smallest", "max"), ("queens_like", "first", "mid"), ("max_eq", "greatest", "split"), ("shared_twice", "first", "min"), ("circuit3", "first", "max"), ("count", "first", "mid"), ("geq_leq", "smallest", "split"), ("eq_diff_free", "first", "min"), ("eq_diff_free", "first", "max"), ("eq_diff_free", "smallest", "min")]]
     if only:
         runs = [x for x in runs if x[0] in only]
     d_ = solvefam.Deferred(chk).add(["C01", "C02"], runs)
